@@ -1166,6 +1166,7 @@ impl<'a> Message<'a> {
             data: self.data,
             data_i: MessageHeader::LENGTH,
             seen_message_integrity: false,
+            sha256_may_follow: false,
         }
     }
 
@@ -1343,35 +1344,47 @@ pub struct MessageAttributesIter<'a> {
     data: &'a [u8],
     data_i: usize,
     seen_message_integrity: bool,
+    // the previous attribute was the MESSAGE-INTEGRITY that ended the authenticated part
+    sha256_may_follow: bool,
 }
 
 impl<'a> Iterator for MessageAttributesIter<'a> {
     type Item = RawAttribute<'a>;
 
     fn next(&mut self) -> Option<Self::Item> {
-        if self.data_i >= self.data.len() {
-            return None;
-        }
-
-        let Ok(attr) = RawAttribute::from_bytes(&self.data[self.data_i..]) else {
-            self.data_i = self.data.len();
-            return None;
-        };
-        let padded_len = attr.padded_len();
-        self.data_i += padded_len;
-        if self.seen_message_integrity {
-            if attr.get_type() == Fingerprint::TYPE {
-                return Some(attr);
+        loop {
+            if self.data_i >= self.data.len() {
+                return None;
             }
-            return None;
-        }
-        if attr.get_type() == MessageIntegrity::TYPE
-            || attr.get_type() == MessageIntegritySha256::TYPE
-        {
-            self.seen_message_integrity = true;
-        }
 
-        Some(attr)
+            let Ok(attr) = RawAttribute::from_bytes(&self.data[self.data_i..]) else {
+                self.data_i = self.data.len();
+                return None;
+            };
+            let padded_len = attr.padded_len();
+            self.data_i += padded_len;
+            if self.seen_message_integrity {
+                let directly_after_sha1 = self.sha256_may_follow;
+                self.sha256_may_follow = false;
+                if attr.get_type() == Fingerprint::TYPE {
+                    return Some(attr);
+                }
+                if directly_after_sha1 && attr.get_type() == MessageIntegritySha256::TYPE {
+                    return Some(attr);
+                }
+                // not covered by the integrity attribute already handed out: hide it, but keep
+                // looking for the FINGERPRINT
+                continue;
+            }
+            if attr.get_type() == MessageIntegrity::TYPE {
+                self.seen_message_integrity = true;
+                self.sha256_may_follow = true;
+            } else if attr.get_type() == MessageIntegritySha256::TYPE {
+                self.seen_message_integrity = true;
+            }
+
+            return Some(attr);
+        }
     }
 }
 
